@@ -15,11 +15,93 @@ import time
 import z3
 
 
+def _top_forms(text):
+    """Top-level s-expressions (and comment lines) of an SMT-LIB script, in order."""
+    forms = []
+    i, n = 0, len(text)
+    while i < n:
+        ch = text[i]
+        if ch.isspace():
+            i += 1
+        elif ch == ';':
+            j = text.find('\n', i)
+            j = n if j < 0 else j
+            forms.append(text[i:j])
+            i = j
+        elif ch == '(':
+            depth, j, in_str = 0, i, False
+            while j < n:
+                c = text[j]
+                if in_str:
+                    if c == '"':
+                        if j + 1 < n and text[j + 1] == '"':
+                            j += 1
+                        else:
+                            in_str = False
+                elif c == '"':
+                    in_str = True
+                elif c == '|':
+                    j = text.index('|', j + 1)
+                elif c == '(':
+                    depth += 1
+                elif c == ')':
+                    depth -= 1
+                    if depth == 0:
+                        break
+                j += 1
+            forms.append(text[i:j + 1])
+            i = j + 1
+        else:
+            j = text.find('\n', i)
+            j = n if j < 0 else j
+            forms.append(text[i:j])
+            i = j
+    return forms
+
+
+def order_datatypes(text):
+    """z3's printer emits datatype declarations without following dependencies that run through
+    Array / Seq sort arguments; re-order the declare-datatypes forms topologically (a form depends
+    on another when it mentions its sort name)."""
+    if text.count('(declare-datatypes') < 2:
+        return text
+    forms = _top_forms(text)
+    dts = [(k, f) for k, f in enumerate(forms) if f.startswith('(declare-datatypes')]
+    names = {}
+    for k, f in dts:
+        m = re.match(r'\(declare-datatypes\s*\(\((\S+)\s', f)
+        if m:
+            names[k] = m.group(1)
+    deps = {}
+    for k, f in dts:
+        body = f[f.index(')) ') + 3:] if ')) ' in f else f
+        deps[k] = [k2 for k2, nm in names.items() if k2 != k and re.search(r'(?<![\w!.$-])' + re.escape(nm) + r'(?![\w!.$-])', body)]
+    order, seen = [], set()
+
+    def visit(k, stack=()):
+        if k in seen or k in stack:
+            return
+        for d in deps.get(k, []):
+            visit(d, stack + (k,))
+        seen.add(k)
+        order.append(k)
+    for k, _ in dts:
+        visit(k)
+    first = min(k for k, _ in dts)
+    dt_idx = {k for k, _ in dts}
+    out = [f for k, f in enumerate(forms) if k < first]
+    # uninterpreted sorts the datatypes mention must precede them
+    out += [f for k, f in enumerate(forms) if k > first and f.startswith('(declare-sort')]
+    out += [forms[k] for k in order]
+    out += [f for k, f in enumerate(forms) if k > first and k not in dt_idx and not f.startswith('(declare-sort')]
+    return '\n'.join(out) + '\n'
+
+
 def to_smt2(terms):
     s = z3.Solver()
     for t in terms:
         s.add(t)
-    return s.to_smt2()
+    return order_datatypes(s.to_smt2())
 
 
 def uses_strings(smt2):
